@@ -41,6 +41,10 @@ for d in sorted(os.listdir(root)):
         'checks': checks,
         'history': prev.get('history', []),
     }
+    if os.path.exists(os.path.join(p, 'SUPERSEDED')):
+        meta['superseded'] = open(os.path.join(p, 'SUPERSEDED')).read().strip()
+    if os.path.exists(os.path.join(p, 'NOTE')):
+        meta['note'] = open(os.path.join(p, 'NOTE')).read().strip()
     if prev.get('checks') and prev['checks'] != checks:
         meta['history'] = prev.get('history', []) + [{'earlier_result': prev['checks']}]
     json.dump(meta, open(mp, 'w'), indent=1)
